@@ -288,7 +288,8 @@ def parse_response(buf):
     ret['status_text'] = cr.status_text
     params = cr.body
     for k in ControlParametersValue._encoded_fields:
-        val = getattr(params, k.name)
+        # Error responses usually carry no ControlParameters
+        val = getattr(params, k.name) if params is not None else None
         if isinstance(val, memoryview):
             val = bytes(val)
         ret[k.name] = val
